@@ -156,3 +156,148 @@ func everyRecordRunsCode(c *Ctx) {
 	})
 	c.atLeast("parts of a compiled rule stored by Compile", n, 2)
 }
+
+// compiledBlocksNonEmpty (R-CTX every-record, also C01): the interpreter takes a rule whose compiled body is empty
+// for a rule without a block (and prints the record), and a program whose compiled END code is empty for a program
+// without END (and does not read the input). The code stored as a rule's body or appended to the END code is
+// therefore never empty when the source has the block: the finish() that yields it is dominated by an unconditional
+// emission on the same compiler, or by the guard `if len(c.code) == 0 { c.add(...) }`.
+func compiledBlocksNonEmpty(c *Ctx) {
+	fn := c.ssaFunc("internal/compiler", "Compile")
+	if fn == nil {
+		return
+	}
+	// finish calls and what becomes of their result
+	type site struct {
+		call *ssa.Call
+		role string
+	}
+	var sites []site
+	roleOf := func(call *ssa.Call) string {
+		seen := map[ssa.Value]bool{}
+		role := ""
+		var walk func(v ssa.Value, depth int)
+		walk = func(v ssa.Value, depth int) {
+			if seen[v] || depth > 5 || role != "" {
+				return
+			}
+			seen[v] = true
+			refs := v.Referrers()
+			if refs == nil {
+				return
+			}
+			for _, r := range *refs {
+				switch x := r.(type) {
+				case *ssa.Store:
+					if f, base := fieldOfAddr(x.Addr); f != nil && x.Val == v {
+						if isNamed(deref(base.Type()), modPath+"/internal/compiler", "Action") && f.Name() == "Body" {
+							role = "Body"
+						}
+						if isNamed(deref(base.Type()), modPath+"/internal/compiler", "Program") && f.Name() == "End" {
+							role = "End"
+						}
+					}
+				case *ssa.Phi:
+					walk(x, depth+1)
+				case *ssa.Call:
+					if b, ok := x.Call.Value.(*ssa.Builtin); ok && b.Name() == "append" && len(x.Call.Args) == 2 && x.Call.Args[1] == v {
+						// append(p.End, code...)
+						if interpLikeFieldLoad(x.Call.Args[0], "End") {
+							role = "End"
+						}
+						walk(x, depth+1)
+					}
+				}
+			}
+		}
+		walk(call, 0)
+		return role
+	}
+	allInstrs(fn, func(in ssa.Instruction) {
+		call, ok := in.(*ssa.Call)
+		if !ok {
+			return
+		}
+		if cal := call.Call.StaticCallee(); cal == nil || cal.Name() != "finish" {
+			return
+		}
+		if r := roleOf(call); r != "" {
+			sites = append(sites, site{call, r})
+		}
+	})
+	k := map[string]int{}
+	for _, s := range sites {
+		k[s.role]++
+		key := "every-record:nonempty:" + s.role
+		if k[s.role] > 1 {
+			key += "#" + itoa(int64(k[s.role]))
+		}
+		recv := s.call.Call.Args[0]
+		okNonEmpty := false
+		how := ""
+		for _, b := range fn.Blocks {
+			if !(b == s.call.Block() || b.Dominates(s.call.Block())) {
+				continue
+			}
+			for _, in := range b.Instrs {
+				if in == ssa.Instruction(s.call) {
+					break
+				}
+				if call, ok := in.(*ssa.Call); ok {
+					cal := call.Call.StaticCallee()
+					if cal == nil || len(call.Call.Args) == 0 || call.Call.Args[0] != recv {
+						continue
+					}
+					// an unconditional emission: add(...) or an expression (which always pushes a value)
+					if cal.Name() == "add" || cal.Name() == "expr" {
+						okNonEmpty, how = true, "an unconditional "+cal.Name()+" on the same compiler precedes it"
+					}
+				}
+			}
+			// the guard: len(recv.code) == 0 with an add on the zero edge
+			if len(b.Instrs) == 0 {
+				continue
+			}
+			iff, ok := b.Instrs[len(b.Instrs)-1].(*ssa.If)
+			if !ok {
+				continue
+			}
+			bo, ok := iff.Cond.(*ssa.BinOp)
+			if !ok || (bo.Op != token.EQL && bo.Op != token.NEQ) {
+				continue
+			}
+			kz, isK := bo.Y.(*ssa.Const)
+			lc, isCall := bo.X.(*ssa.Call)
+			if !isK || !isCall || kz.Value == nil || kz.Int64() != 0 {
+				continue
+			}
+			if bi, ok := lc.Call.Value.(*ssa.Builtin); !ok || bi.Name() != "len" {
+				continue
+			}
+			f, base := loadedField(lc.Call.Args[0])
+			if f == nil || f.Name() != "code" || base != recv {
+				continue
+			}
+			zero := b.Succs[0]
+			if bo.Op == token.NEQ {
+				zero = b.Succs[1]
+			}
+			for _, in := range zero.Instrs {
+				if call, ok := in.(*ssa.Call); ok {
+					if cal := call.Call.StaticCallee(); cal != nil && cal.Name() == "add" && len(call.Call.Args) > 0 && call.Call.Args[0] == recv {
+						okNonEmpty, how = true, "guarded by `if len(code) == 0 { add(...) }`"
+					}
+				}
+			}
+		}
+		c.check(okNonEmpty, key, s.call.Pos(), "the compiled "+s.role+" code is never empty ("+how+")",
+			"Compile can store empty code as a rule's "+s.role+" although the source has the block (a block of empty blocks, `{ {} }`, compiles to nothing): the interpreter takes an empty body for \"no action\" and prints the record, an empty END for \"no END block\" and skips the input - and a record handled without executing an instruction is never polled for cancellation")
+	}
+	c.atLeast("compiled blocks whose emptiness has a meaning", len(sites), 2)
+}
+
+// interpLikeFieldLoad: v is a load of the named field of some struct.
+func interpLikeFieldLoad(v ssa.Value, name string) bool {
+	f, _ := loadedField(v)
+	return f != nil && f.Name() == name
+}
